@@ -1,11 +1,32 @@
 package vharness
 
 import (
+	"errors"
+
 	"github.com/goptics/varmq"
 	"github.com/goptics/varmq/vrt"
 	"github.com/goptics/varmq/vrt/vtime"
 	"time"
 )
+
+// errName maps the library's exported error values to stable names (the texts are not part of any property).
+func errName(err error) string {
+	switch {
+	case err == nil:
+		return ""
+	case errors.Is(err, varmq.ErrJobProcessing):
+		return "ErrJobProcessing"
+	case errors.Is(err, varmq.ErrJobAlreadyClosed):
+		return "ErrJobAlreadyClosed"
+	case errors.Is(err, varmq.ErrNotRunningWorker):
+		return "ErrNotRunningWorker"
+	case errors.Is(err, varmq.ErrRunningWorker):
+		return "ErrRunningWorker"
+	case errors.Is(err, varmq.ErrSameConcurrency):
+		return "ErrSameConcurrency"
+	}
+	return "other: " + err.Error()
+}
 
 func (e *Env) item(it Item, q int) varmq.Item[Payload] {
 	it2 := it
@@ -117,7 +138,7 @@ func (e *Env) call(c int, op Op) {
 		if h := needJ(); h != nil {
 			begin()
 			err := h.close()
-			ret.E, ret.OK = errStr(err), err == nil
+			ret.E, ret.OK = errName(err), err == nil
 			end()
 		}
 	case "status":
@@ -221,32 +242,32 @@ func (e *Env) call(c int, op Op) {
 		end()
 	case "pause":
 		begin()
-		ret.E = errStr(e.w.Pause())
+		ret.E = errName(e.w.Pause())
 		ret.St = e.w.Status()
 		end()
 	case "pausewait":
 		begin()
-		ret.E = errStr(e.w.PauseAndWait())
+		ret.E = errName(e.w.PauseAndWait())
 		ret.St = e.w.Status()
 		end()
 	case "resume":
 		begin()
-		ret.E = errStr(e.w.Resume())
+		ret.E = errName(e.w.Resume())
 		ret.St = e.w.Status()
 		end()
 	case "stop":
 		begin()
-		ret.E = errStr(e.w.Stop())
+		ret.E = errName(e.w.Stop())
 		ret.St = e.w.Status()
 		end()
 	case "waitstop":
 		begin()
-		ret.E = errStr(e.w.WaitAndStop())
+		ret.E = errName(e.w.WaitAndStop())
 		ret.St = e.w.Status()
 		end()
 	case "restart":
 		begin()
-		ret.E = errStr(e.w.Restart())
+		ret.E = errName(e.w.Restart())
 		ret.St = e.w.Status()
 		e.restarts++
 		vrt.Wake(vrt.KeyOf(&e.restarts))
@@ -254,7 +275,7 @@ func (e *Env) call(c int, op Op) {
 	case "tune":
 		ev.I = int64(op.V)
 		begin()
-		ret.E = errStr(e.w.TunePool(op.V))
+		ret.E = errName(e.w.TunePool(op.V))
 		ret.I = int64(e.w.NumConcurrency())
 		ret.St = e.w.Status()
 		end()
